@@ -2,6 +2,7 @@ package main
 
 import (
 	"bytes"
+	"crypto/sha256"
 	"encoding/json"
 	"fmt"
 	"net/url"
@@ -56,18 +57,12 @@ func runHook(cases []ldCase) []ldResult {
 		fmt.Fprintln(os.Stderr, "linkdest hook:", err)
 		os.Exit(2)
 	}
-	cmd := exec.Command("go", "test", "-vet=off", "-count=1", "-tags", "verif", "-run", "^TestVerifLinkDest$", "./cmd/scriggo")
-	cmd.Dir = repo
-	env := []string{}
-	for _, e := range os.Environ() {
-		if strings.HasPrefix(e, "GOFLAGS=") || strings.HasPrefix(e, "GOPROXY=") || strings.HasPrefix(e, "VERIF_LINKDEST_") {
-			continue
-		}
-		env = append(env, e)
-	}
-	cmd.Env = append(env, "GOFLAGS=-mod=mod", "GOPROXY=off", "VERIF_LINKDEST_IN="+in, "VERIF_LINKDEST_OUT="+out)
+	bin := linkdestTestBinary(repo)
+	cmd := exec.Command(bin, "-test.run", "^TestVerifLinkDest$", "-test.count=1")
+	cmd.Dir = filepath.Join(repo, "cmd", "scriggo")
+	cmd.Env = append(goEnv(), "VERIF_LINKDEST_IN="+in, "VERIF_LINKDEST_OUT="+out)
 	if msg, err := cmd.CombinedOutput(); err != nil {
-		fmt.Fprintf(os.Stderr, "linkdest hook: go test failed: %v\n%s\n", err, msg)
+		fmt.Fprintf(os.Stderr, "linkdest hook: test binary failed: %v\n%s\n", err, msg)
 		os.Exit(2)
 	}
 	res, err := os.ReadFile(out)
@@ -81,6 +76,64 @@ func runHook(cases []ldCase) []ldResult {
 		os.Exit(2)
 	}
 	return rs
+}
+
+func goEnv() []string {
+	env := []string{}
+	for _, e := range os.Environ() {
+		if strings.HasPrefix(e, "GOFLAGS=") || strings.HasPrefix(e, "GOPROXY=") || strings.HasPrefix(e, "VERIF_LINKDEST_") {
+			continue
+		}
+		env = append(env, e)
+	}
+	return append(env, "GOFLAGS=-mod=mod", "GOPROXY=off")
+}
+
+// linkdestTestBinary builds (go test -c -tags verif ./cmd/scriggo) the test
+// binary of package main once per state of the repository's Go sources: the
+// file name carries a hash of every .go file and of go.mod.
+func linkdestTestBinary(repo string) string {
+	h := sha256.New()
+	filepath.WalkDir(repo, func(p string, d os.DirEntry, err error) error {
+		if err != nil {
+			return nil
+		}
+		if d.IsDir() {
+			if n := d.Name(); n == ".git" || n == "node_modules" {
+				return filepath.SkipDir
+			}
+			return nil
+		}
+		if strings.HasSuffix(p, ".go") || d.Name() == "go.mod" || d.Name() == "go.sum" {
+			if b, err := os.ReadFile(p); err == nil {
+				fmt.Fprintf(h, "%s\x00%d\x00", p, len(b))
+				h.Write(b)
+			}
+		}
+		return nil
+	})
+	dir := filepath.Join(os.TempDir(), "verif-linkdest-cache")
+	os.MkdirAll(dir, 0o755)
+	bin := filepath.Join(dir, fmt.Sprintf("linkdest-%x.test", h.Sum(nil)[:10]))
+	if _, err := os.Stat(bin); err == nil {
+		return bin
+	}
+	// drop older binaries
+	if old, _ := filepath.Glob(filepath.Join(dir, "linkdest-*.test")); len(old) > 4 {
+		for _, o := range old {
+			os.Remove(o)
+		}
+	}
+	tmp := bin + fmt.Sprintf(".%d", os.Getpid())
+	cmd := exec.Command("go", "test", "-c", "-vet=off", "-tags", "verif", "-o", tmp, "./cmd/scriggo")
+	cmd.Dir = repo
+	cmd.Env = goEnv()
+	if msg, err := cmd.CombinedOutput(); err != nil {
+		fmt.Fprintf(os.Stderr, "linkdest hook: go test -c -tags verif ./cmd/scriggo failed: %v\n%s\n", err, msg)
+		os.Exit(2)
+	}
+	os.Rename(tmp, bin)
+	return bin
 }
 
 const ldBase, ldDir = "https://example.com/base", "docs"
@@ -135,6 +188,7 @@ var riskSignature = map[string]string{
 	"html-with-bracket-in-link-text":      "title-of-unrecognised-link-scanned",
 	"code-span-with-bracket-in-link-text": "title-of-unrecognised-link-scanned",
 	"empty-angle-destination":             "title-of-unrecognised-link-scanned",
+	"literal-less-than-before-letter":     "title-of-unrecognised-link-scanned",
 }
 
 type ldGen struct {
@@ -187,7 +241,7 @@ func (g *ldGen) link() string {
 
 var ldInlineSafe = []string{"word", "two words", "`[a](b)`", "``[a](b) ` x``", "<span title=\"[a](b)\">x</span>", "<b>", "</b>", "<!-- [a](b) -->",
 	"<http://x.y/z>", "<a@b.cc>", "\\[a\\](b)", "\\\\", "*em*", "**[s](t)**", "[ref]", "[text][ref]", "[text][]", "[un]closed", "](x)", "[a]", "(b)", "[a] (b)",
-	"&amp;", "<br/>", "[x]: not-a-def", "![img](i.png)", "a<b", "1 < 2 [a](b)", "<?php [a](b) ?>", "<![CDATA[ [a](b) ]]>", "<!DOCTYPE [a](b)>"}
+	"&amp;", "<br/>", "[x]: not-a-def", "![img](i.png)", "1 < 2 [a](b)", "<?php [a](b) ?>", "<![CDATA[ [a](b) ]]>", "<!DOCTYPE [a](b)>"}
 
 // startsBlock: at the start of a line these begin an HTML block (the whole line
 // is raw HTML for CommonMark) or look like a reference definition
@@ -209,6 +263,9 @@ func (g *ldGen) inline() string {
 			parts = append(parts, g.link())
 		} else {
 			it := ldInlineSafe[r.Intn(len(ldInlineSafe))]
+			if g.risk == "" && r.Intn(40) == 0 {
+				it, g.risk = "a<b", "literal-less-than-before-letter"
+			}
 			if i == 0 && startsBlock(it) {
 				it = "word " + it
 			}
@@ -328,6 +385,7 @@ func fixedDocs() []ldDoc {
 	for _, b := range ldBlocksRisky {
 		out = append(out, ldDoc{b.s, b.risk}, ldDoc{"[a](b)\n\n" + b.s + "\n\n[c](d)", b.risk})
 	}
+	out = append(out, ldDoc{"a<b [<b>x</b>](/guide \"[x](y)\")", "literal-less-than-before-letter"})
 	for _, i := range ldInlineSafe {
 		if !startsBlock(i) {
 			out = append(out, ldDoc{i, ""})
